@@ -119,23 +119,7 @@ def check(ctx, report):
         if not ok:
             report.add('C11.R2', cf.construct + '@struct.error', 'struct.pack is not inside a handler converting struct.error into InvalidValue')
     # ---- R3
-    for f in model.functions():
-        for n in ast.walk(f.node):
-            d = None
-            if isinstance(n, (ast.Attribute, ast.Name)):
-                d = dotted(n)
-            if d in LOCAL_TIME:
-                report.count('C11.R3')
-                report.add('C11.R3', f.construct + '@' + d, 'local-time API %s: the result depends on the TZ / DST rules of the machine' % d)
-            if isinstance(n, ast.Call):
-                fd = dotted(n.func) or ''
-                if fd.endswith('fromtimestamp') and not fd.endswith('utcfromtimestamp'):
-                    report.count('C11.R3')
-                    if len(n.args) < 2 and not any(k.arg == 'tz' for k in n.keywords):
-                        report.add('C11.R3', f.construct + '@fromtimestamp', 'datetime.fromtimestamp without a tz argument yields local time')
-                if fd in ('datetime.datetime.now', 'datetime.datetime.today', 'datetime.date.today') and not n.args and not n.keywords:
-                    report.count('C11.R3')
-                    report.add('C11.R3', f.construct + '@' + fd, 'naive local "now"')
+    local_time_apis(ctx, report)
     report.count('C11.R3', len(list(model.functions())), nontrivial=0)
     ct = method(model, 'ComposerBinary', 'compose_timestamp', report)
     pt = method(model, 'ParserBinary', 'parse_timestamp', report)
@@ -171,6 +155,50 @@ def epoch_conversion(ct):
         if not ok:
             return 'calendar.timegm is applied to %s: the fields of a time zone aware value are not converted to UTC first (utctimetuple())' % ast.unparse(a)
     return None
+
+
+def local_time_apis(ctx, report, RULE='C11.R3', only=None):
+    """Nothing in the package asks the machine for its time zone: no local-time function is called *or handed on as a value* (a
+    converter argument ``datetime.datetime.fromtimestamp`` is called later without a zone), ``fromtimestamp`` always gets a zone, and
+    ``astimezone`` - which reads a datetime without zone as local time - is applied only where the same value was tested for
+    having a zone (``x.tzinfo is None`` / ``is not None`` in an enclosing or preceding test of the function)."""
+    model = ctx.model
+    for f in model.functions():
+        if only is not None and not only(f):
+            continue
+        called = {id(n.func) for n in ast.walk(f.node) if isinstance(n, ast.Call)}
+        zone_tested = set()
+        for n in ast.walk(f.node):
+            if isinstance(n, ast.Compare) and isinstance(n.left, ast.Attribute) and n.left.attr == 'tzinfo' and \
+                    any(isinstance(c, ast.Constant) and c.value is None for c in n.comparators):
+                zone_tested.add(ast.unparse(n.left.value))
+        for n in ast.walk(f.node):
+            d = None
+            if isinstance(n, (ast.Attribute, ast.Name)):
+                d = dotted(n)
+            if d in LOCAL_TIME:
+                report.count(RULE)
+                report.add(RULE, f.construct + '@' + d, 'local-time API %s: the result depends on the TZ / DST rules of the machine' % d)
+            if isinstance(n, ast.Attribute) and n.attr == 'fromtimestamp' and id(n) not in called and (d or '').startswith('datetime'):
+                report.count(RULE)
+                report.add(RULE, f.construct + '@fromtimestamp', 'datetime.fromtimestamp handed on as a value (a converter): it is called with the number alone '
+                           'and yields local time')
+            if isinstance(n, ast.Call):
+                fd = dotted(n.func) or ''
+                if fd.endswith('fromtimestamp') and not fd.endswith('utcfromtimestamp'):
+                    report.count(RULE)
+                    if len(n.args) < 2 and not any(k.arg == 'tz' for k in n.keywords):
+                        report.add(RULE, f.construct + '@fromtimestamp', 'datetime.fromtimestamp without a tz argument yields local time')
+                if fd in ('datetime.datetime.now', 'datetime.datetime.today', 'datetime.date.today') and not n.args and not n.keywords:
+                    report.count(RULE)
+                    report.add(RULE, f.construct + '@' + fd, 'naive local "now"')
+                if isinstance(n.func, ast.Attribute) and n.func.attr == 'astimezone':
+                    report.count(RULE)
+                    recv = ast.unparse(n.func.value)
+                    if recv not in zone_tested and not recv.endswith(')'):
+                        report.add(RULE, f.construct + '@astimezone[%s]' % recv[:30],
+                                   '%s.astimezone(...) without a test of %s.tzinfo: a datetime without zone is read as local time there, the rest '
+                                   'of the package reads it as UTC' % (recv, recv))
 
 
 def fields_written_as_stored(ctx, report, RULE='C11.R8', kinds=('ts',), modules=None, what=('in place of attribute',),
